@@ -32,7 +32,7 @@ CHECKS = {   # seeded id -> [(property check, --only obligations or None)]
     'C02-b': [('C02', None)],
     'C03-b': [('C05', 'range_write_tag_UDINT,range_write_frag_INT'), ('C08', 'write_tag_inconsistent_fields_at1_off0,write_frag_inconsistent_fields_at0_off0')],
     'C05-b': [('C05', None)],
-    'C06-b': [('C14', 'forward_open_rejected_small'), ('C06', 'one_reply_read_tag,one_reply_write_tag')],
+    'C06-b': [('C14', 'forward_open_rejected_small'), ('C06', 'one_reply_forward_open_refused')],
     'C08-b': [('C08', 'udp_trailing_bytes_do_not_leak')],
     'C10-b': [('C10', None)],
     'C12-b': [('C12', 'text_write_cast_dot,text_write')],
